@@ -38,6 +38,7 @@ type XEnum struct {
 
 // XDialect is one definition file.
 type XDialect struct {
+	Noise    uint64 // != 0: decorate the XML with the optional attributes / elements real definitions carry
 	File     string // e.g. "vfd_3.xml"
 	Version  string // "" = absent
 	Includes []string
@@ -145,10 +146,24 @@ func (l *XLayout) EncodeXML(v2 bool, bits func(decl, elem int) uint64, str func(
 	return out
 }
 
-// RenderXML writes the definition as MAVLink XML.
+// RenderXML writes the definition as MAVLink XML. With d.Noise != 0 the output carries the optional
+// attributes and elements of real-world definitions (units, instance, display, print_format, invalid,
+// multi-line descriptions, <deprecated>, <wip/>, <param> inside entries, comments), none of which
+// changes what the definition means.
 func RenderXML(d *XDialect) string {
 	var sb strings.Builder
+	ns := d.Noise
+	noise := func(n uint64) bool {
+		if d.Noise == 0 {
+			return false
+		}
+		ns = ns*6364136223846793005 + 1442695040888963407
+		return (ns>>33)%n == 0
+	}
 	sb.WriteString("<?xml version=\"1.0\"?>\n<mavlink>\n")
+	if noise(2) {
+		sb.WriteString("  <!-- generated definition: comments must be ignored -->\n")
+	}
 	for _, inc := range d.Includes {
 		fmt.Fprintf(&sb, "  <include>%s</include>\n", inc)
 	}
@@ -164,8 +179,20 @@ func RenderXML(d *XDialect) string {
 				bm = ` bitmask="true"`
 			}
 			fmt.Fprintf(&sb, "    <enum name=%q%s>\n      <description>enum %s.</description>\n", e.Name, bm, e.Name)
+			if noise(4) {
+				sb.WriteString("      <deprecated since=\"2020-01\" replaced_by=\"NOTHING\">old enum</deprecated>\n")
+			}
 			for _, en := range e.Entries {
-				fmt.Fprintf(&sb, "      <entry value=%q name=%q>\n        <description>entry.</description>\n      </entry>\n", en.ValueText, en.Name)
+				switch {
+				case noise(4):
+					fmt.Fprintf(&sb, "      <entry value=%q name=%q hasLocation=\"false\" isDestination=\"false\">\n        <description>entry with params.\n          second line.</description>\n        <param index=\"1\" label=\"P1\" units=\"s\" minValue=\"0\">first parameter</param>\n        <param index=\"2\">Empty</param>\n      </entry>\n", en.ValueText, en.Name)
+				case noise(5):
+					fmt.Fprintf(&sb, "      <entry value=%q name=%q/>\n", en.ValueText, en.Name)
+				case noise(6):
+					fmt.Fprintf(&sb, "      <entry name=%q value=%q>\n        <wip/>\n        <description>work in progress &amp; more.</description>\n      </entry>\n", en.Name, en.ValueText)
+				default:
+					fmt.Fprintf(&sb, "      <entry value=%q name=%q>\n        <description>entry.</description>\n      </entry>\n", en.ValueText, en.Name)
+				}
 			}
 			sb.WriteString("    </enum>\n")
 		}
@@ -173,7 +200,21 @@ func RenderXML(d *XDialect) string {
 	}
 	sb.WriteString("  <messages>\n")
 	for _, m := range d.Messages {
-		fmt.Fprintf(&sb, "    <message id=\"%d\" name=%q>\n      <description>message %s.</description>\n", m.ID, m.Name, m.Name)
+		if noise(5) {
+			fmt.Fprintf(&sb, "    <!-- %s -->\n", m.Name)
+		}
+		fmt.Fprintf(&sb, "    <message id=\"%d\" name=%q>\n", m.ID, m.Name)
+		if noise(5) {
+			sb.WriteString("      <wip/>\n")
+		}
+		if noise(6) {
+			sb.WriteString("      <deprecated since=\"2019-04\" replaced_by=\"OTHER\"/>\n")
+		}
+		if noise(3) {
+			fmt.Fprintf(&sb, "      <description>message %s.\n        A second line with &lt;markup&gt; and \"quotes\".\n      </description>\n", m.Name)
+		} else {
+			fmt.Fprintf(&sb, "      <description>message %s.</description>\n", m.Name)
+		}
 		ext := false
 		for _, f := range m.Fields {
 			if f.Ext && !ext {
@@ -188,7 +229,31 @@ func RenderXML(d *XDialect) string {
 			if f.Enum != "" {
 				en = fmt.Sprintf(" enum=%q", f.Enum)
 			}
-			fmt.Fprintf(&sb, "      <field type=%q name=%q%s>field %s</field>\n", t, f.Name, en, f.Name)
+			attrs := ""
+			if noise(3) {
+				attrs += " units=\"m/s\""
+			}
+			if noise(6) {
+				attrs += " instance=\"true\""
+			}
+			if noise(6) {
+				attrs += " invalid=\"UINT16_MAX\""
+			}
+			if noise(8) {
+				attrs += " print_format=\"0x%04x\" display=\"bitmask\""
+			}
+			if noise(8) {
+				attrs += " minValue=\"0\" maxValue=\"100\" increment=\"1\" default=\"0\" multiplier=\"1E-2\""
+			}
+			desc := "field " + f.Name
+			if noise(5) {
+				desc = "field " + f.Name + " (see <a href=\"x\">doc</a>),\n        continued on a second line"
+			}
+			if noise(2) {
+				fmt.Fprintf(&sb, "      <field type=%q name=%q%s%s>%s</field>\n", t, f.Name, en, attrs, desc)
+			} else {
+				fmt.Fprintf(&sb, "      <field%s name=%q type=%q%s>%s</field>\n", attrs, f.Name, t, en, desc)
+			}
 		}
 		sb.WriteString("    </message>\n")
 	}
